@@ -207,6 +207,9 @@ class Repo:
                 r = self.resolve_import(m2, orig, depth + 1)
                 if r is not None:
                     return r
+        sub = base.replace(".", "/") + "/" + orig + ".py"
+        if os.path.exists(os.path.join(self.root, sub)):
+            return ("module", self.module(sub))
         return None
 
     def cls(self, name: str, path: str | None = None) -> ClassInfo | None:
